@@ -43,3 +43,15 @@ Lemma localsplus_example :
   let tb := {| tb_consts := []; tb_names := []; tb_vars := [118000; 118001; 118002; 118003]; tb_cells := [118000; 99001]; tb_frees := [102000; 118001]; tb_ncmp := 6 |} in
   model_localsplus tb = [118000; 118001; 118002; 118003; 99001; 102000; 118001].
 Proof. reflexivity. Qed.
+
+(* a free variable always has a slot of its own: slot number = locals + cells that are not locals + its index among the free variables *)
+Lemma free_slot tb i : (i < List.length (tb_frees tb))%nat ->
+  nth_error (model_localsplus tb)
+    (List.length (tb_vars tb) + List.length (filter (fun c => negb (zmem c (tb_vars tb))) (tb_cells tb)) + i) = nth_error (tb_frees tb) i.
+Proof.
+  intros _. rewrite localsplus_eq. unfold spec_localsplus.
+  rewrite <- Nat.add_assoc. rewrite nth_error_app2 by apply Nat.le_add_r.
+  rewrite Nat.add_comm, Nat.add_sub.
+  rewrite nth_error_app2 by apply Nat.le_add_r.
+  rewrite Nat.add_comm, Nat.add_sub. reflexivity.
+Qed.
